@@ -40,6 +40,23 @@ func (idx *Index) AddStage(stg stage.Stage, path string) error {
 			)
 		}
 	}
+	// Check the other direction as well: a directory output of the new Stage
+	// must not enclose an output that is already owned by another Stage.
+	// Otherwise acceptance would depend on the order Stages are added, and the
+	// Index written now could not be loaded again.
+	for otherPath, other := range *idx {
+		for artPath := range other.Outputs {
+			if owner, ok := stage.FindDirArtifactOwnerForPath(artPath, stg.Outputs); ok {
+				return fmt.Errorf(
+					"%s: artifact %s would own artifact %s of %s",
+					path,
+					owner.Path,
+					artPath,
+					otherPath,
+				)
+			}
+		}
+	}
 	(*idx)[path] = &stg
 	return nil
 }
